@@ -17,6 +17,17 @@ pub proof fn axiom_q_reduced(x: real)
         (q_numer(x) > 0) == (x > 0real),
 { }
 
+/// the part of axiom_q_reduced that involves no division (cheap for the solver)
+#[verifier::external_body]
+pub proof fn axiom_q_denom(x: real)
+    ensures
+        q_denom(x) >= 1,
+        (q_denom(x) == 1) == is_int(x),
+        is_int(x) ==> q_numer(x) as real == x,
+        (q_numer(x) == 0) == (x == 0real),
+        (q_numer(x) > 0) == (x > 0real),
+{ }
+
 #[verifier::external_body]
 pub struct BigInt { _p: u8 }
 
